@@ -60,11 +60,13 @@ func init() {
 }
 
 type c03case struct {
-	id   string
-	n    int
-	pat  int
-	ipa  bool
-	zIPA *big.Int
+	id        string
+	n         int
+	pat       int
+	ipa       bool
+	zIPA      *big.Int
+	forceKind int // 0 = free choice; otherwise the polynomial kind of every opened polynomial
+	alwaysRef bool
 }
 
 func c03cases(thorough bool) []c03case {
@@ -83,6 +85,11 @@ func c03cases(thorough bool) []c03case {
 			out = append(out, c03case{id: fmt.Sprintf("multi/n%d/%s", n, indexPatternNames[p]), n: n, pat: p})
 		}
 		k++
+	}
+	// single / few openings of limb-structured polynomials: with one opening r^0 = 1, so the committed quotient has the
+	// structured coefficients themselves (linear polynomial with slope 2^64-1 => constant quotient 2^64-1)
+	for i, k := range []int{9, 9, 10, 9} {
+		out = append(out, c03case{id: fmt.Sprintf("multi/limb-structured/%d", i), n: []int{1, 1, 2, 3}[i], pat: 9, forceKind: k, alwaysRef: true})
 	}
 	r := ref.R
 	names := []string{"0", "255", "256", "2101", "r-1", "2^200"}
@@ -137,7 +144,12 @@ func runC03(c *mon.Ctx) {
 				}
 			} else {
 				m := 1 + rng.Intn(6)
-				polys := makePolys(env, rng, m)
+				var forced []int
+				if cs.forceKind != 0 {
+					m = 1 + rng.Intn(2)
+					forced = []int{cs.forceKind, cs.forceKind}
+				}
+				polys := makePolys(env, rng, m, forced...)
 				s = genStatement(env, rng, cs.n, cs.pat, polys)
 				// representation and pointer pattern differ per execution slot and child: the bytes must not depend on them
 				rr := rand.New(rand.NewSource(int64(slot*1000 + c.Shard)))
@@ -156,7 +168,7 @@ func runC03(c *mon.Ctx) {
 				if len(s.label)+cs.n*99 > 1024 && slot == 0 {
 					c.Count("cases_over_1024_pending_bytes", 1)
 				}
-				if slot == 0 && cs.n <= 64 && c03index(cases, cs.id)%refEvery == 0 && c.Mine(c03index(cases, cs.id)/refEvery) {
+				if slot == 0 && cs.n <= 64 && ((c03index(cases, cs.id)%refEvery == 0 && c.Mine(c03index(cases, cs.id)/refEvery)) || (cs.alwaysRef && c.Mine(c03index(cases, cs.id)))) {
 					rtr := ref.NewTranscript(s.label)
 					rp := env.Ref.ProveMulti(rtr, s.refCs(), s.refFs(), s.refZs())
 					rch := rtr.ChallengeScalar([]byte("state"))
